@@ -597,8 +597,23 @@ class QGen:
         multi = len(trs) > 1
         c = self.qcol(tr) if multi else self.col(tr)
         r = rng.random()
-        if r < 0.45:
+        if r < 0.38:
             return c, 'ident'
+        if r < 0.47:
+            # window function: every combination of PARTITION BY / ORDER BY presence, 1/2/3-part column names
+            def wcol():
+                t = rng.choice(trs)
+                style = rng.choice(['tab', 'full', 'full'] if multi else ['bare', 'tab', 'full', 'full'])
+                return self.col(t, None, style)
+            has_p, has_o = rng.choice([(False, False), (True, False), (False, True), (False, True), (True, True)])
+            over = []
+            if has_p:
+                over.append('PARTITION BY ' + ', '.join(wcol() for _ in range(rng.choice([1, 1, 2]))))
+            if has_o:
+                over.append('ORDER BY ' + ', '.join(wcol() + rng.choice(['', ' DESC']) for _ in range(rng.choice([1, 1, 2]))))
+            fn = rng.choice(['row_number()', 'count(*)', 'sum(%s)' % wcol(), 'max(%s)' % wcol()])
+            self.features.add('window/p=%d,o=%d' % (has_p, has_o))
+            return '%s OVER (%s) AS w%d' % (fn, ' '.join(over), i), 'aliased'
         if r < 0.55:
             return '%s AS c%d' % (c, i), 'aliased'
         if r < 0.575 and not self.single:
@@ -669,6 +684,37 @@ class QGen:
                     on += ' AND %s > 0' % self.qcol(tr)
                 frm += ' %s %s ON %s' % (jt, tr['sql'], on)
                 trs.append(tr)
+        elif r < 0.44 and depth < 1:
+            # derived table: its alias is a local name like a table alias — also when it spells the integration
+            inner = self.tref()
+            if rng.random() < 0.35:
+                al = rng.choice([inner['db'], inner['db'].upper()])
+                self.features.add('derived-alias=integration')
+            else:
+                self.alias_n += 1
+                al = 'd%d' % self.alias_n
+            self.features.add('derived-table')
+            c2 = rng.choice(inner['cols'][1:])
+            w = ' WHERE %s > 0' % self.col(inner, None, rng.choice(['tab', 'full'])) if rng.random() < 0.3 else ''
+            frm = '(SELECT %s, %s FROM %s%s) AS %s' % (self.col(inner, 'id', rng.choice(['bare', 'tab', 'full'])),
+                                                       self.col(inner, c2, rng.choice(['bare', 'tab'])), inner['sql'], w, al)
+            tg = ['%s.id' % al, '%s.%s' % (al, c2)][:rng.choice([1, 2])]
+            where = []
+            if rng.random() < 0.5:
+                other = self.tref(db=inner['db'] if self.single else None, force_alias=True)
+                frm += ' %s %s ON %s.id = %s' % (rng.choice(['JOIN', 'LEFT JOIN']), other['sql'], al, self.col(other, 'id', 'tab'))
+                tg.append(self.col(other, None, 'tab'))
+            if rng.random() < 0.5:
+                e = self.tref(db=inner['db'] if self.single else None, force_alias=True)
+                where.append('EXISTS (SELECT 1 FROM %s WHERE %s = %s.id)' % (e['sql'], self.col(e, 'id', 'tab'), al))
+            if rng.random() < 0.3:
+                where.append('%s.%s > 0' % (al, c2))
+            sql = 'SELECT %s FROM %s' % (', '.join(tg), frm)
+            if where:
+                sql += ' WHERE ' + ' AND '.join(where)
+            if rng.random() < 0.3:
+                sql += ' ORDER BY %s.id' % al
+            return sql, trs, [(t, 'ident') for t in tg]
         elif r < 0.48 and depth < 1:
             self.features.add('sub:from')
             inner, itrs, _ = self.select(depth + 1, allow_union=False)
